@@ -18,29 +18,28 @@ STUB = [
 ]
 BUDGET = {"quick": 60.0, "thorough": 780.0}
 
-CHECKS: dict[str, dict[str, object]] = {
-    "C20": {
-        "level": "exploration",
-        "plans": lambda tier: [
-            Plan("state", {"part": "nonce"}, share=1.0, chunk=40, label="state/nonce"),
-            Plan("state", {"part": "signer"}, share=1.0, chunk=40, label="state/signer"),
-            Plan("state", {"part": "wallet"}, share=1.5, chunk=20, label="state/wallet"),
-            Plan("state", {"part": "indep"}, share=2.0, chunk=10, label="state/indep"),
-            Plan("state", {"part": "threads", "opcode": tier == "thorough"}, share=4.0, chunk=10, label="state/threads"),
-        ],
-        "rule": (
-            "one evaluation = one seeded run: a generated history of calls on a nonce / signer / wallet object "
-            "checked against a reference state machine after every step, or a list of pure calls re-evaluated "
-            "under cache clears/shrinks and backend flips, or 2-4 simulated threads under a seeded (PCT / uniform / "
-            "staggered) interleaving. distinct = distinct hash of the (actor, event, fault) sequence incl. the thread "
-            "switch trace; non-trivial = at least one fault/perturbation fired or >= 2 context switches."
-        ),
-        "assumptions": [
-            "pre-emption only at first-visit line (thorough: bytecode) boundaries of btclib frames; C calls are atomic (GIL)",
-            "races between two threads on one secnonce bytearray or one wallet object are not asserted (not stated by the property)",
-        ],
-    },
-}
+def _collect() -> dict[str, dict[str, object]]:
+    """Every world module contributes its own ``CHECKS`` entries."""
+    import importlib  # noqa: PLC0415
+
+    from btcsim.worlds import _WORLDS  # noqa: PLC0415
+
+    out: dict[str, dict[str, object]] = {}
+    for _name, mod in sorted(_WORLDS.items()):
+        try:
+            m = importlib.import_module(mod)
+        except ModuleNotFoundError as e:
+            if e.name == mod:
+                continue  # world not built
+            raise
+        for pid, c in getattr(m, "CHECKS", {}).items():
+            if pid in out:
+                raise RuntimeError(f"{pid} defined by two worlds")
+            out[pid] = c
+    return out
+
+
+CHECKS: dict[str, dict[str, object]] = _collect()
 
 
 def run_property_check(prop: str, tier: str) -> int:
